@@ -522,6 +522,8 @@ class Engine:
             return z3.BitVecVal(ord(m.group(1)), 32)
         if t.startswith('"'):
             return StrV(_unescape(t[1:-1]))
+        if t.startswith("ZeroSized: "):
+            return FnV(t[len("ZeroSized: "):].strip())
         if t.startswith('b"'):
             return Ref(("lit", t), ())
         m = re.match(r"^\{alloc(\d+): (.*)\}$", t)
@@ -1107,16 +1109,19 @@ class Engine:
             return SPLIT
         if isinstance(out, Fork):
             live = []
-            for c, v in out.alts:
+            for alt in out.alts:
+                c, v = alt[0], alt[1]
                 c = z3.BoolVal(c) if isinstance(c, bool) else z3.simplify(c)
                 if z3.is_false(c):
                     continue
                 if z3.is_true(c) or (not self.eager) or self.feasible(st.pc, c):
-                    live.append((c, v))
+                    live.append((c, v, alt[2] if len(alt) > 2 else None))
                 else:
                     self.stats.pruned += 1
-            for c, v in live:
+            for c, v, evn in live:
                 s2 = st.fork()
+                if evn is not None:
+                    s2.events.append(evn)
                 if not z3.is_true(c):
                     s2.pc.append(c)
                 r = self._complete(s2, s2.frames[-1], dest, ret_bb, v, callee)
